@@ -216,3 +216,55 @@ Qed.
 (* every forwarded Log was emitted (nothing is invented), for the scenario it was emitted for *)
 Definition only_emitted (ls : list tlabel) (out : list tout) : Prop :=
   forall sc m, In (TLog sc m) out -> exists x, In (TEmit sc m x) ls.
+
+(* ---- exactly once, in emission order ---- *)
+Definition logs_of (out : list tout) : list tout :=
+  filter (fun o => match o with TLog _ _ => true | _ => false end) out.
+Definition as_out (l : log) : tout := TLog (l_scen l) (l_msg l).
+
+Lemma logs_of_app a b : logs_of (a ++ b) = logs_of a ++ logs_of b.
+Proof. unfold logs_of. apply filter_app. Qed.
+Lemma logs_of_map l : logs_of (map as_out l) = map as_out l.
+Proof. induction l as [|x l IH]; [reflexivity|]. cbn. f_equal. exact IH. Qed.
+
+(* forwarded ++ still queued = emitted, as sequences: no log is lost, duplicated or overtaken *)
+Definition fifo (ls : list tlabel) (s : tstate) (out : list tout) : Prop :=
+  logs_of out ++ map as_out (t_logs s) = map as_out (emitted ls).
+
+Lemma tstep_fifo ls s out l s' o :
+  inv ls s out -> fifo ls s out -> tstep s l = Some (s', o) -> fifo (ls ++ [l]) s' (out ++ o).
+Proof.
+  intros (OK & _ & _) F ST. unfold fifo in *. rewrite emitted_app, map_app, logs_of_app.
+  destruct l as [sc m x|x|x| |x]; cbn [tstep] in ST.
+  - destruct (memN x (t_closed s)); [discriminate|]. inversion ST; subst. cbn [t_logs emitted flat_map logs_of filter app map].
+    rewrite app_nil_r, map_app, app_assoc, F. reflexivity.
+  - destruct (memN x (t_closed s)); [discriminate|]. inversion ST; subst. cbn [t_logs emitted flat_map logs_of filter app map].
+    rewrite !app_nil_r. exact F.
+  - destruct (memN x (t_closed s)); [|discriminate]. inversion ST; subst. cbn [t_logs emitted flat_map logs_of filter app map].
+    rewrite !app_nil_r. exact F.
+  - assert (LT : (length (t_logs s) < S (length (t_logs s)))%nat) by lia.
+    destruct (fwd_loop_spec (S (length (t_logs s))) s OK LT) as (_ & _ & _ & E & O).
+    destruct (fwd_loop (S (length (t_logs s))) s) as [s2 o2]. inversion ST; subst. cbn [fst snd] in E, O.
+    rewrite E, O. cbn [emitted flat_map map app]. rewrite !app_nil_r. change (fun l : log => TLog (l_scen l) (l_msg l)) with as_out.
+    rewrite logs_of_map. exact F.
+  - destruct (memN x (t_released s)); [|discriminate]. inversion ST; subst. cbn [emitted flat_map logs_of filter app map].
+    rewrite !app_nil_r. exact F.
+Qed.
+
+Theorem texec_fifo : forall ls2 ls1 s out s' o,
+  inv ls1 s out -> fifo ls1 s out -> texec s ls2 = Some (s', o) -> fifo (ls1 ++ ls2) s' (out ++ o).
+Proof.
+  induction ls2 as [|l t IH]; intros ls1 s out s' o I F H; cbn [texec] in H.
+  - inversion H; subst. rewrite !app_nil_r. exact F.
+  - destruct (tstep s l) as [[s1 o1]|] eqn:S1; [|discriminate].
+    destruct (texec s1 t) as [[s2 o2]|] eqn:S2; [|discriminate]. inversion H; subst.
+    replace (ls1 ++ l :: t) with ((ls1 ++ [l]) ++ t) by (rewrite <- app_assoc; reflexivity).
+    rewrite app_assoc. eapply IH; [eapply tstep_inv; eauto | eapply tstep_fifo; eauto | exact S2].
+Qed.
+
+(* whole runs: what has been forwarded, followed by what is still queued, is exactly what was emitted, in order *)
+Theorem logs_exactly_once_in_order ls s out :
+  texec tinit ls = Some (s, out) -> logs_of out ++ map as_out (t_logs s) = map as_out (emitted ls).
+Proof.
+  intros H. exact (texec_fifo ls [] tinit [] s out init_inv eq_refl H).
+Qed.
